@@ -233,6 +233,18 @@ structure B2MOK (ext : Nat → Nat) (dvars : List MVar) (mb : Mgr) (out : B2MOut
   /-- every BDD node the user holds (and the terminal) has an image -/
   mapped : (out.umap.lookup 1).isSome = true ∧
     ∀ u : Nat, 0 < ext u → (out.umap.lookup u).isSome = true
+  /-- the MDD manager is a state reachable from `MDD(dvars)` by `find_or_add` calls (each loop
+  iteration is one), the user holding no reference yet: in particular its counts are exact, so
+  `incref`, `collect_garbage` and the other operations apply to it -/
+  reach : MReach dvars out.mdd (fun _ => 0)
+  /-- the BDD manager still satisfies the whole reordering invariant for the same ledger, so a
+  second conversion (or any other operation) applies to it -/
+  reorder : ReorderInv ext mb'
+  /-- the declared variable names are the same -/
+  names : ∀ v : String, mb'.tbl.vars.contains v = mb.tbl.vars.contains v
+
+theorem B2MOK.exact {ext : Nat → Nat} {dvars : List MVar} {mb : Mgr} {out : B2MOut} {mb' : Mgr}
+    (h : B2MOK ext dvars mb out mb') : MRefExact out.mdd (fun _ => 0) := h.reach.inv.2.1
 
 /-- C15, conversion: for a BDD manager satisfying the reordering invariant (manager invariant,
 name maps, exact counts for the ledger `ext`, roots held), dynamic reordering enabled or not,
@@ -251,10 +263,10 @@ theorem bddToMdd_spec (ext : Nat → Nat) (mb : Mgr) (h : ReorderInv ext mb)
     rw [P.tbl] at this
     exact this
   rw [P.btv] at hloop
-  obtain ⟨hB, hM, hV, hU⟩ := b2mLoop_bdd_sound dvars m2 P.inv.inv P.zone p.rm ord
+  obtain ⟨hB, hM, hV, hR, hU⟩ := b2mLoop_bdd_sound dvars m2 P.inv.inv P.zone p.rm ord
     (fun u hu _ => (hordm u).mp hu) out mb' hloop
   obtain ⟨hk1, hk2⟩ := b2mLoop_keys p.rm (b2mBitToVar dvars) ord _ _ m2 out mb' hloop
-  refine ⟨hM, hV, hB.inv, hB.zone, hU, ?_, ?_, ?_⟩
+  refine ⟨hM, hV, hB.inv, hB.zone, hU, ?_, ⟨?_, ?_⟩, hR, by rw [hB.eq]; exact P.inv, by rw [hB.eq]; exact P.names⟩
   · intro u hu
     have hmb : mb' = m2 := hB.eq
     subst hmb
